@@ -402,6 +402,22 @@ def native_replay(bins, fn_name, vals):
     return out
 
 
+def sweep_witness(bins, fn_name, labels):
+    try:
+        p = subprocess.run([bins["release"], "--sweep", fn_name, os.environ.get("CV_WITNESS_BUDGET", "400000")],
+                           stdout=subprocess.PIPE, stderr=subprocess.STDOUT, text=True, timeout=600)
+    except subprocess.TimeoutExpired:
+        return []
+    out = []
+    for m in re.finditer(r"^SWEEP-FAIL harness=\S+ draws=\[([0-9, ]*)\] panic=(true|false) failed=\[(.*)\]$", p.stdout, re.M):
+        vals = [[int(x)] for x in m.group(1).replace(" ", "").split(",") if x != ""]
+        failed = set(re.findall(r'"([^"]+)"', m.group(3)))
+        if m.group(2) == "true" or (failed & labels):
+            lab = sorted(failed & labels)[0] if (failed & labels) else sorted(labels)[0] if labels else "panic"
+            out.append((lab, vals))
+    return out[:3]
+
+
 def reproduces(kani_fail_labels, nat):
     """A counterexample reproduces if, in some native profile, one of the kani-failed labels fails natively,
     or the native run panics inside the real code (C20 class: unwrap on None, overflow, bounds)."""
@@ -444,7 +460,7 @@ def match_known(known, prop, harness_fn, labels, panic):
             continue
         if harness_fn not in k.get("sites", []):
             continue
-        allowed = set(k.get("labels", []))
+        allowed = set(k.get("labels", [])) | set(k.get("solver_labels", []))
         got = set(labels)
         if panic:
             pk = k.get("panic_contains")
@@ -558,6 +574,14 @@ def do_check(prop, tier, seed, only=None, write_evidence=True):
                 bins = build_native()
         for (h, meta, e, rec, labels) in pb_now:
             tests = tests_by_h.get(h, [])
+            if not tests and bins:
+                # Kani printed no playback (its trace generation can need > 30 GB where the verdict took 3 GB): look for a
+                # witness of the failure the SOLVER reported by running the natively compiled harness body over every
+                # draw vector of a small alphabet. The verdict is the solver's; this only extracts a concrete input,
+                # which is then replayed like any other counterexample.
+                tests = sweep_witness(bins, meta["fn"], set(labels))
+                if tests:
+                    rec["witness_from"] = "native enumeration over a small alphabet after the solver reported the failure (no concrete playback available)"
             confirmed = None
             tried = []
             if bins:
